@@ -95,51 +95,80 @@ class StmtMixin:
                         func=fr.func.qualname if fr.func else "<module>")
 
     def ex_Match(self, s, fr, st):
-        """match over literal / singleton / wildcard / or-patterns is an if-elif chain on equality"""
+        """match as an if-elif chain: literal / singleton / wildcard / or-patterns are equality tests, a class
+        pattern without sub-patterns is isinstance, a mapping pattern with literal keys is key membership (values
+        bound by subscription), guards are nested decisions, `as` and bare names bind the subject"""
         site = self.site_of(s, fr)
         subj = self.val(s.subject, fr, st)
+        SUBJ = "$match"
+        st.locals[SUBJ] = subj
 
-        def cond_of(pat):
+        def synth(e):
+            ast.copy_location(e, s.subject)
+            ast.fix_missing_locations(e)
+            return e
+
+        def sname():
+            return ast.Name(id=SUBJ, ctx=ast.Load())
+
+        def cond_of(pat, binds):
+            """condition node (True = always, None = unsupported) of a pattern; binds collects (name, ast expr)"""
             if isinstance(pat, ast.MatchValue):
                 return self.compare("Eq", subj, self.val(pat.value, fr, st), site)
             if isinstance(pat, ast.MatchSingleton):
                 return self.compare("Is", subj, self.const(pat.value, site), site)
             if isinstance(pat, ast.MatchOr):
-                cs = [cond_of(p_) for p_ in pat.patterns]
+                cs = [cond_of(p_, binds) for p_ in pat.patterns]
                 if any(c is None or c is True for c in cs):
                     return True if any(c is True for c in cs) else None
                 return self.mk("BoolOp", tuple(cs), "Or", site)
-            if isinstance(pat, ast.MatchAs) and pat.pattern is None:
-                return True             # wildcard / bare capture
+            if isinstance(pat, ast.MatchAs):
+                c = True if pat.pattern is None else cond_of(pat.pattern, binds)
+                if pat.name:
+                    binds.append((pat.name, sname()))
+                return c
+            if isinstance(pat, ast.MatchClass) and not pat.patterns and not pat.kwd_patterns:
+                return self.val(synth(ast.Call(func=ast.Name(id="isinstance", ctx=ast.Load()),
+                                               args=[sname(), pat.cls], keywords=[])), fr, st)
+            if isinstance(pat, ast.MatchMapping) and pat.rest is None and \
+                    all(isinstance(k_, ast.Constant) for k_ in pat.keys):
+                cs = []
+                for k_, vp in zip(pat.keys, pat.patterns):
+                    if not (isinstance(vp, ast.MatchAs) and vp.pattern is None):
+                        return None
+                    cs.append(self.val(synth(ast.Compare(left=ast.Constant(k_.value), ops=[ast.In()],
+                                                         comparators=[sname()])), fr, st))
+                    if vp.name:
+                        binds.append((vp.name, synth(ast.Subscript(value=sname(), slice=ast.Constant(k_.value),
+                                                                   ctx=ast.Load()))))
+                if not cs:
+                    return True
+                return cs[0] if len(cs) == 1 else self.mk("BoolOp", tuple(cs), "And", site)
             return None
         cases = []
         for c in s.cases:
-            cn = cond_of(c.pattern)
-            if cn is None or c.guard is not None:
+            binds = []
+            cn = cond_of(c.pattern, binds)
+            if cn is None:
                 self.effect("unsupported", site, st, fr, what="Match pattern")
                 self._havoc_assigned([x for c_ in s.cases for x in c_.body], fr, st, site)
+                st.locals.pop(SUBJ, None)
                 return True
-            cases.append((cn, c))
+            cases.append((cn, c, binds))
 
-        def run(k, st_):
-            if k >= len(cases):
-                return True
-            cn, c = cases[k]
-            if cn is True:
-                if isinstance(c.pattern, ast.MatchAs) and c.pattern.name:
-                    st_.locals[c.pattern.name] = subj
-                return self.exec_block(c.body, fr, st_)
-            t = self.truth(cn)
+        def branch(cn, st_, on_true, on_false):
+            """decide cn in st_: run on_true / on_false in the respective states and join them"""
+            t = True if cn is True else self.truth(cn)
             if t is True:
-                return self.exec_block(c.body, fr, st_)
+                return on_true(st_)
             if t is False:
-                return run(k + 1, st_)
+                return on_false(st_)
             base_pc = st_.pc
             s1, s2 = st_.copy(), st_.copy()
             s1.pc = base_pc + ((cn, True),)
             s2.pc = base_pc + ((cn, False),)
-            f1 = self.exec_block(c.body, fr, s1)
-            f2 = run(k + 1, s2)
+            f1 = on_true(s1)
+            f2 = on_false(s2)
             if f1 and f2:
                 st_.assign_from(self.merge2(cn, s1, s2, base_pc))
                 return True
@@ -150,7 +179,23 @@ class StmtMixin:
                 st_.assign_from(s2)
                 return True
             return False
-        return run(0, st)
+
+        def run(k, st_):
+            if k >= len(cases):
+                return True
+            cn, c, binds = cases[k]
+
+            def matched(sx):
+                for name, e in binds:
+                    sx.locals[name] = self.val(e, fr, sx)
+                if c.guard is None:
+                    return self.exec_block(c.body, fr, sx)
+                gd = self.val(c.guard, fr, sx)
+                return branch(gd, sx, lambda sy: self.exec_block(c.body, fr, sy), lambda sy: run(k + 1, sy))
+            return branch(cn, st_, matched, lambda sx: run(k + 1, sx))
+        flow = run(0, st)
+        st.locals.pop(SUBJ, None)
+        return flow
 
     def ex_Delete(self, s, fr, st):
         site = self.site_of(s, fr)
